@@ -5,14 +5,18 @@
   `read_bytes(s,e)` returns is byte-for-byte what the slice parser's `get_bytes(s..e)` returns on
   the same contents; and with a *legal* reader (short reads, `Interrupted`, but no errors and no
   premature EOF) it succeeds whenever the range fits — for any history and any schedule.
-  Layer 2 (accessor-by-accessor refinement up to content equality) is validated by the
-  correspondence harness against both the model and the real `ElfBytes`; see DESIGN.md.
+  Layer 2 (this file, proved): `open_stream` ≡ `minimal_parse` — same success set, same file header,
+  and the stream's header vectors are exactly the entries of the slice parser's lazy tables.
+  Layer 3 (query-by-query refinement up to content equality): see the `*_refines` theorems below
+  for the queries proved so far; the others are validated by the correspondence harness against
+  both the model and the real `ElfBytes`; see DESIGN.md.
 -/
 import ElfVerif.Lemmas.Stream
+import ElfVerif.Lemmas.OpenEquiv
 namespace Elf.C07
 
-/-- same length and same bytes (the stream hands out copies, so location is not comparable) -/
-def SameBytes (a b : Slice) : Prop := a.len = b.len ∧ ∀ i, i < a.len → a.byte i = b.byte i
+/- `Elf.SameBytes a b`: same length and same bytes (the stream hands out copies, so location is not
+   comparable). -/
 
 theorem extract_byte (c : Array UInt8) (s n i : Nat) (hi : i < n) (hfit : s + n ≤ c.size) :
     (Slice.ofArray (c.extract s (s + n))).byte i = (Slice.ofArray c).byte (s + i) := by
@@ -45,71 +49,75 @@ theorem read_bytes_refines (r : CachingReader) (s e : Nat) (h : CacheOK r) (hse 
       rw [extract_byte r.dev.content s (e - s) i hi' (by omega)]
       simp [Slice.byte, Slice.ofArray]
 
-/-- A legal reader: never an error, never a premature EOF. -/
-def Legal (sched : List Fault) : Prop := ∀ f, f ∈ sched → f ≠ .fail ∧ f ≠ .eof
-
-theorem legal_tail {f : Fault} {rest : List Fault} (h : Legal (f :: rest)) : Legal rest :=
-  fun g hg => h g (List.mem_cons_of_mem _ hg)
-
-/-- With a legal reader `read_exact` delivers whenever the bytes exist — however the reads are
-    chopped up and however often they are interrupted. -/
+/-- With a legal reader (`Elf.Legal`: short reads and `Interrupted` allowed, never an error, never a
+    premature EOF) `read_exact` delivers whenever the bytes exist — however the reads are chopped up
+    and however often they are interrupted. -/
 theorem read_exact_legal (fuel : Nat) (d : Device) (n : Nat) (hl : Legal d.sched)
     (hfit : d.pos + n ≤ d.content.size) (hf : n + d.sched.length < fuel) :
     (Device.readExact fuel d n).1 = .ok () := by
-  induction fuel generalizing d n with
-  | zero => omega
-  | succ f ih =>
-    unfold Device.readExact
-    by_cases hn : n = 0
-    · simp [hn]
-    · simp only [hn, if_false]
-      unfold Device.read Device.nextFault
-      cases hs : d.sched with
-      | nil =>
-        simp only
-        have hav : min n (d.content.size - d.pos) = n := by omega
-        rw [hav]
-        cases n with
-        | zero => omega
-        | succ m =>
-          simp only
-          have := ih { d with sched := [], pos := d.pos + (m + 1), trace := d.trace ++ [.read (m + 1) (m + 1)] } 0
-            (by simp [Legal]) (by simp; omega) (by simp; omega)
-          simpa [hs] using this
-      | cons flt rest =>
-        have hlr : Legal rest := by rw [hs] at hl; exact legal_tail hl
-        have hne := hl flt (by rw [hs]; exact List.mem_cons_self ..)
-        cases flt with
-        | fail => exact absurd rfl hne.1
-        | eof => exact absurd rfl hne.2
-        | none =>
-          simp only
-          have hav : min n (d.content.size - d.pos) = n := by omega
-          rw [hav]
-          cases n with
-          | zero => omega
-          | succ m =>
-            simp only
-            have := ih { d with sched := rest, pos := d.pos + (m + 1), trace := d.trace ++ [.read (m + 1) (m + 1)] } 0
-              hlr (by simp; omega) (by simp; rw [hs] at hf; simp at hf; omega)
-            simpa using this
-        | interrupted =>
-          simp only
-          exact ih { d with sched := rest, trace := d.trace ++ [.read n 0] } n hlr hfit
-            (by simp; rw [hs] at hf; simp at hf; omega)
-        | short k =>
-          simp only
-          have hpos : 0 < min (min n (d.content.size - d.pos)) (max 1 k) := by omega
-          generalize hj : min (min n (d.content.size - d.pos)) (max 1 k) = j at hpos
-          cases j with
-          | zero => omega
-          | succ j =>
-            simp only
-            exact ih { d with sched := rest, pos := d.pos + (j + 1), trace := d.trace ++ [.read n (j + 1)] }
-              (n - (j + 1)) hlr (by simp; omega) (by simp; rw [hs] at hf; simp at hf; omega)
+  obtain ⟨d', h, _⟩ := Device.readExact_legal fuel d n hl hfit hf
+  rw [h]
+
+/-- **Completeness of `read_bytes` on a legal reader** (the converse of `read_bytes_refines`): with
+    the reader invariant, a range that fits the stream is delivered with the stream's own bytes and
+    the invariant is kept; a range that does not fit is an error and the invariant is kept. -/
+theorem read_bytes_complete (r : CachingReader) (c : Array UInt8) (s e : Nat) (h : RInv r c) (hse : s ≤ e) :
+    (e ≤ c.size → ∃ b r', r.readBytes s e = (.ok b, r') ∧ SameBytes b ⟨c, 0 + s, 0 + e⟩ ∧ RInv r' c) ∧
+    (c.size < e → ∃ r', r.readBytes s e = (.err (.BadOffset e), r') ∧ RInv r' c) :=
+  readBytes_legal r c s e h hse
+
+/-! ## Layer 2: `open_stream` ≡ `minimal_parse` -/
+
+/-- **Section header table**: over a legal reader the stream's locator succeeds exactly when the
+    slice parser's does and its `Vec` holds exactly the entries of the slice parser's lazy table. -/
+theorem section_headers_equiv (h : FileHeader) (r : CachingReader) (c : Array UInt8) (hinv : RInv r c)
+    (hc63 : c.size < 2 ^ 63) :
+    ∃ r', RInv r' c ∧
+      ((∃ tbl, findShdrs h (Slice.ofArray c) = .ok tbl ∧ parseSectionHeaders h r = (headersOf tbl, r')) ∨
+       (∃ e e', findShdrs h (Slice.ofArray c) = .err e' ∧ parseSectionHeaders h r = (.err e, r'))) :=
+  Elf.section_headers_equiv h r c hinv hc63
+
+/-- **Program header table**, likewise (including the `PN_XNUM` escape through `shdr[0].sh_info`). -/
+theorem program_headers_equiv (h : FileHeader) (r : CachingReader) (c : Array UInt8) (hinv : RInv r c)
+    (hc63 : c.size < 2 ^ 63) :
+    ∃ r', RInv r' c ∧
+      ((∃ tbl, findPhdrs h (Slice.ofArray c) = .ok tbl ∧ parseProgramHeaders h r = (headersOf tbl, r')) ∨
+       (∃ e e', findPhdrs h (Slice.ofArray c) = .err e' ∧ parseProgramHeaders h r = (.err e, r'))) :=
+  Elf.program_headers_equiv h r c hinv hc63
+
+/-- **Opening through a stream succeeds exactly when opening the same bytes as a slice succeeds,
+    and then yields the identical file header, section headers and program headers** — for every
+    content (below the 2^63 bytes a Rust slice can hold), either byte-order policy, and every legal
+    reader schedule. -/
+theorem open_equiv (sp : Spec) (dev : Device) (hl : Legal dev.sched) (hc63 : dev.content.size < 2 ^ 63) :
+    (∃ f s d, minimalParse sp (Slice.ofArray dev.content) = .ok f ∧ openStream sp dev = (.ok s, d) ∧
+        s.ehdr = f.ehdr ∧ headersOf f.shdrs = .ok s.shdrs ∧ headersOf f.phdrs = .ok s.phdrs ∧
+        RInv s.reader dev.content) ∨
+    (∃ e e' d, minimalParse sp (Slice.ofArray dev.content) = .err e' ∧ openStream sp dev = (.err e, d)) :=
+  Elf.open_equiv sp dev hl hc63
+
+/-- success sets coincide (corollary, as an iff) -/
+theorem open_ok_iff (sp : Spec) (dev : Device) (hl : Legal dev.sched) (hc63 : dev.content.size < 2 ^ 63) :
+    (∃ f, minimalParse sp (Slice.ofArray dev.content) = .ok f) ↔ (∃ s, (openStream sp dev).1 = .ok s) := by
+  rcases Elf.open_equiv sp dev hl hc63 with ⟨f, s, d, h1, h2, _⟩ | ⟨e, e', d, h1, h2⟩
+  · exact ⟨fun _ => ⟨s, by rw [h2]⟩, fun _ => ⟨f, h1⟩⟩
+  · constructor
+    · intro ⟨f, hf⟩; rw [h1] at hf; cases hf
+    · intro ⟨s, hs⟩; rw [h2] at hs; cases hs
 
 /- Non-vacuity -/
 example : Legal [.short 2, .interrupted, .none] := by
   intro f hf; simp at hf; rcases hf with rfl | rfl | rfl <;> simp
+
+/-- a 64-byte ELF64 little-endian header with no tables -/
+def hdr64 : Array UInt8 := #[0x7f,0x45,0x4c,0x46, 2,1,1,0, 0,0,0,0,0,0,0,0,
+  2,0, 62,0, 1,0,0,0, 0,0,0,0,0,0,0,0, 0,0,0,0,0,0,0,0, 0,0,0,0,0,0,0,0, 0,0,0,0, 64,0, 56,0, 0,0, 64,0, 0,0, 0,0]
+
+/- Non-vacuity of `open_equiv`: a legal schedule with a short and an interrupted read on which both
+   parsers succeed (first disjunct), and an 8-byte file on which both fail (second disjunct). -/
+example : (minimalParse .any (Slice.ofArray hdr64)).isOk = true := by decide
+example : (openStream .any ⟨hdr64, 0, [.short 3, .interrupted], []⟩).1.isOk = true := by decide +kernel
+example : (minimalParse .any (Slice.ofArray (hdr64.extract 0 8))).isOk = false := by decide
+example : (openStream .any ⟨hdr64.extract 0 8, 0, [.short 3], []⟩).1.isOk = false := by decide +kernel
 
 end Elf.C07
